@@ -1,6 +1,9 @@
 package main
 
 import (
+	"github.com/biogo/biogo/alphabet"
+	"github.com/biogo/biogo/seq"
+	"github.com/biogo/biogo/seq/alignment"
 	"fmt"
 
 	"verif/harness/internal/obs"
@@ -21,7 +24,7 @@ func init() {
 			}
 			return 4
 		},
-		Cases:       func(r *obs.Run) int { return r.Share(r.Pick(6000, 200000)) },
+		Cases:       func(r *obs.Run) int { return r.Share(r.Pick(20000, 200000)) },
 		Case:        c05Case,
 		MinDistinct: func(t string) int { return 3000 },
 		Floors: func(string) map[string]int64 {
@@ -38,8 +41,61 @@ func init() {
 
 var c05Kinds = []string{"lseq", "lqseq", "aseq", "aqseq", "mseq", "mqseq", "mseq", "mqseq", "set", "qset"}
 
+// c05ZeroColumns: column-stored alignments without a single column cannot be described by the row model (they have no
+// rows to observe), so the strand part of the statement is checked on them directly.
+func c05ZeroColumns(r *obs.Run) {
+	rng := r.Rng
+	al := []alphabet.Alphabet{alphabet.DNA, alphabet.RNA, alphabet.DNAgapped, alphabet.RNAgapped, alphabet.DNAredundant, alphabet.RNAredundant}[rng.Intn(6)]
+	st := seq.Strand(1 - 2*rng.Intn(2))
+	quality := rng.Intn(2) == 0
+	w := map[string]interface{}{"kind": map[bool]string{true: "alignment.QSeq", false: "alignment.Seq"}[quality], "columns": 0, "strand": st}
+	defer func() {
+		if e := recover(); e != nil {
+			r.Violate("panic", fmt.Sprintf("zero-column %v: panic: %v", w["kind"], e), w)
+		}
+	}()
+	var x interface {
+		RevComp()
+		Len() int
+	}
+	strand := func() seq.Strand { return 0 }
+	if quality {
+		a, err := alignment.NewQSeq("aln", nil, nil, al, alphabet.Sanger, seq.DefaultQConsensus)
+		if err != nil {
+			r.Inconclusive("harness: alignment.NewQSeq without columns: " + err.Error())
+			return
+		}
+		a.Strand = st
+		x, strand = a, func() seq.Strand { return a.Strand }
+	} else {
+		a, err := alignment.NewSeq("aln", nil, nil, al, seq.DefaultConsensus)
+		if err != nil {
+			r.Inconclusive("harness: alignment.NewSeq without columns: " + err.Error())
+			return
+		}
+		a.Strand = st
+		x, strand = a, func() seq.Strand { return a.Strand }
+	}
+	x.RevComp()
+	if strand() != -st || x.Len() != 0 {
+		r.Violate("revcomp", fmt.Sprintf("zero-column %v with strand %d: after one RevComp strand %d (want %d), length %d", w["kind"], st, strand(), -st, x.Len()), w)
+		return
+	}
+	x.RevComp()
+	if strand() != st || x.Len() != 0 {
+		r.Violate("revcomp-involution", fmt.Sprintf("zero-column %v with strand %d: after two RevComps strand %d, length %d", w["kind"], st, strand(), x.Len()), w)
+		return
+	}
+	r.Count("zero_column_alignments", 1)
+	r.Note(fmt.Sprintf("zerocol/%v/%d/%s", quality, st, al.Letters()), true)
+}
+
 func c05Case(r *obs.Run, i int) {
 	rng := r.Rng
+	if i%40 == 7 {
+		c05ZeroColumns(r)
+		return
+	}
 	kind := c05Kinds[rng.Intn(len(c05Kinds))]
 	h := newSeqHist(r, kind, 5, 40, true)
 	defer func() {
